@@ -563,6 +563,9 @@ func (g *generator) stateMerged(r *rng.R, id string, mixed bool, ci *caseInfo) {
 	mvs, outs := g.walk(r, hk, ci, mi, cur, randIKeySeek(r, all, func() []byte { return gen.KeyFrom(r, univ) }))
 	mi.Release()
 	g.emitWalk(line, mvs, outs)
+	// the same walk, answered by the heap model (GoLevel/Model/MergeHeap.lean: container/heap transcribed)
+	g.emitWalk("it new h"+line[len("it new "):], mvs, outs)
+	g.s.Count("merged: walks also answered by the heap model", kindName)
 	g.sample(kindName, line, mvs, outs)
 	g.s.Count("merged: children", fmt.Sprint(nchild))
 	for _, k := range kinds {
@@ -570,6 +573,117 @@ func (g *generator) stateMerged(r *rng.R, id string, mixed bool, ci *caseInfo) {
 	}
 	g.s.Count("comparer", id)
 	g.nState[kindName]++
+}
+
+// stateMergedDup: merged iterator over array children that hold EQUAL internal keys (outside the contract
+// of NewMergedIterator — "assumed to be no duplicate keys" — but accepted by it).  There is no specification
+// cursor for this: the expected answers are whatever the real code does, and the heap model of the Lean
+// driver (`it new hmerged`) must reproduce them, i.e. the tie-breaking of container/heap.  The values name
+// the child, so which child won a tie is visible in every answer.  Implementation-side checks: the returned
+// Boolean against Valid()/Key(), and the weak order of consecutive answers (Next never shows a smaller key,
+// Prev never a greater one) which holds for the heap walk also with ties.
+func (g *generator) stateMergedDup(r *rng.R, id string, ci *caseInfo) {
+	ucmp := gen.Comparer(id)
+	icmp := leveldb.VerifIComparer(ucmp)
+	total := 1 + r.Intn(g.sz.MaxEntries)
+	all := distinctIKeys(r, icmp, total)
+	nchild := 2 + r.Intn(4)
+	parts := make([][]kv, nchild)
+	ndup := 0
+	for _, e := range all {
+		// every key goes to one child for sure and to each other child with probability 1/3 … 2/3
+		home := r.Intn(nchild)
+		num := 1 + r.Intn(2)
+		cnt := 0
+		for x := 0; x < nchild; x++ {
+			if x == home || r.Chance(num, 3) {
+				parts[x] = append(parts[x], kv{e.k, []byte(fmt.Sprintf("c%dv%d", x, len(parts[x])))})
+				cnt++
+			}
+		}
+		if cnt > 1 {
+			ndup++
+		}
+	}
+	if r.Chance(1, 6) { // an exhausted / empty child among them
+		parts[r.Intn(nchild)] = nil
+	}
+	var its []iterator.Iterator
+	var desc []string
+	for x, p := range parts {
+		its = append(its, &chk{iterator.NewArrayIterator(&kvArray{p, icmp}), fmt.Sprintf("%d:array", x), g, ci})
+		desc = append(desc, entriesStr(p))
+	}
+	line := fmt.Sprintf("it new hmerged %s %d %s", id, nchild, strings.Join(desc, " "))
+	ci.site = "mergedIterator(duplicate keys)"
+	ci.replay["state"] = line
+	mi := iterator.NewMergedIterator(its, icmp, r.Chance(1, 2))
+	univ := gen.Universe(r, 5, 3)
+	seekKey := randIKeySeek(r, all, func() []byte { return gen.KeyFrom(r, univ) })
+	var mvs []move
+	var outs []string
+	prev, valid := "", false
+	var prevKey []byte
+	nvalid, reversals, ties := 0, 0, 0
+	var trace strings.Builder
+	func() {
+		defer func() {
+			if p := recover(); p != nil {
+				g.violate(ci, "panic", fmt.Sprintf("panic during the walk: %v", p), mvs)
+				panic(statePanic{p})
+			}
+		}()
+		for n := 0; n < g.sz.Moves; n++ {
+			mv := genMove(r, prev, valid, seekKey)
+			mvs = append(mvs, mv)
+			ret := apply(mi, mv)
+			k, v := mi.Key(), mi.Value()
+			if ret != mi.Valid() || ret != (k != nil) {
+				g.violate(ci, "return-vs-Valid", fmt.Sprintf("move %d %s: returned %v, Valid()=%v, Key()!=nil %v", n, mv.m, ret, mi.Valid(), k != nil), mvs)
+			}
+			if ret && valid && prevKey != nil {
+				if mv.m == "next" && icmp.Compare(k, prevKey) < 0 {
+					g.violate(ci, "dup-order", fmt.Sprintf("move %d next: %s shown after %s", n, hx(k), hx(prevKey)), mvs)
+				}
+				if mv.m == "prev" && icmp.Compare(k, prevKey) > 0 {
+					g.violate(ci, "dup-order", fmt.Sprintf("move %d prev: %s shown after %s", n, hx(k), hx(prevKey)), mvs)
+				}
+				if (mv.m == "next" || mv.m == "prev") && bytes.Equal(k, prevKey) {
+					ties++
+				}
+			}
+			if ret {
+				outs = append(outs, fmt.Sprintf("true %s %s", hx(k), hx(v)))
+				prevKey = append([]byte(nil), k...)
+				nvalid++
+			} else {
+				outs = append(outs, "false nil nil")
+				prevKey = nil
+			}
+			if valid && prev != "" && direction(prev) != direction(mv.m) && (mv.m == "next" || mv.m == "prev") {
+				reversals++
+			}
+			fmt.Fprintf(&trace, "%s%s;", mv.m, hxn(mv.k))
+			prev, valid = mv.m, ret
+		}
+	}()
+	if err := mi.Error(); err != nil {
+		g.violate(ci, "iterator-error", fmt.Sprintf("iterator error %v", err), mvs)
+	}
+	mi.Release()
+	g.emitWalk(line, mvs, outs)
+	g.sample("hmerged(duplicate keys)", line, mvs, outs)
+	g.s.Count("iterator kind", "merged over arrays with duplicate keys (heap model only)")
+	g.s.Count("merged(dup): children", fmt.Sprint(nchild))
+	g.s.Count("merged(dup): keys held by more than one child", sizeClass(ndup))
+	tc := "0"
+	if ties > 0 {
+		tc = "≥1"
+	}
+	g.s.Count("merged(dup): walks showing the same key twice in a row", tc)
+	key := fmt.Sprintf("mergeddup/%08x/%08x", crc32.ChecksumIEEE([]byte(line)), crc32.ChecksumIEEE([]byte(trace.String())))
+	g.s.Eval(key, ndup > 0 && nvalid > 0 && reversals > 0)
+	g.nState["mergeddup"]++
 }
 
 // makeBlocks cuts sorted p into consecutive blocks (some empty) with index keys: for a non-empty block
@@ -1058,7 +1172,7 @@ func visibleOf(ucmp comparer.Comparer, flat []kv, seq uint64, start, limit []byt
 // Comparers are the comparer ids the `it` protocol of the Lean driver knows.
 var Comparers = []string{"bytewise", "reverse", "lenfirst"}
 
-// RunState builds and walks one state: kind is merged | mergedx | indexed | db, seed the state's own stream
+// RunState builds and walks one state: kind is merged | mergedx | mergeddup | indexed | db, seed the state's own stream
 // (recorded in every replay as state_seed), want the number of DB iterator states (db only).
 func (g *generator) runState(kind, id string, seed uint64, want int) {
 	ci := &caseInfo{site: kind, replay: map[string]interface{}{"kind": kind, "comparer": id, "state_seed": seed, "db_states": want, "moves": g.sz.Moves,
@@ -1077,6 +1191,8 @@ func (g *generator) runState(kind, id string, seed uint64, want int) {
 		g.stateMerged(r, id, false, ci)
 	case "mergedx":
 		g.stateMerged(r, id, true, ci)
+	case "mergeddup":
+		g.stateMergedDup(r, id, ci)
 	case "indexed":
 		g.stateIndexed(r, id, ci)
 	case "db":
@@ -1104,7 +1220,11 @@ func Run(r *rng.R, sz Sizes, s *wp.Sink) {
 		id := Comparers[r.Intn(len(Comparers))]
 		switch r.Intn(10) {
 		case 0, 1:
-			g.runState("merged", id, r.U64(), 0)
+			sd := r.U64()
+			g.runState("merged", id, sd, 0)
+			// a duplicate-key state rides on the same draw (own stream derived from it), so that the
+			// seeded stream of all other states is what it was before these states existed
+			g.runState("mergeddup", id, sd^0x9e3779b97f4a7c15, 0)
 			total++
 		case 2, 3:
 			g.runState("mergedx", id, r.U64(), 0)
